@@ -242,6 +242,24 @@ class Interp:
             ctx.add(Lin.sym(L) - prev)
             ctx.add(Lin(LEN_MAX) - Lin.sym(L))
 
+    def _inside_debug_assert(self, body, sp):
+        """The test of `debug_assert!(a <= b)` carries the span of the user's expression `a <= b`, not of the macro: it is a debug-assertion
+        test when it lies inside the source range of a debug-assertion macro call of the same body."""
+        if not sp or sp.get("m"):
+            return False
+        cache = self.__dict__.setdefault("_dbg_spans", {})
+        spans = cache.get(body.path)
+        if spans is None:
+            spans = set()
+            for blk in body.blocks:
+                for x in list(blk["st"]) + [blk["t"]]:
+                    q = x.get("sp")
+                    if q and in_debug_assert(q):
+                        spans.add((q["f"], q["l"], q["c"], q["l2"], q["c2"]))
+            cache[body.path] = spans
+        pos0, pos1 = (sp["l"], sp["c"]), (sp["l2"], sp["c2"])
+        return any(f_ == sp["f"] and (l, c) <= pos0 and pos1 <= (l2, c2) for (f_, l, c, l2, c2) in spans)
+
     def havoc_cursors(self, st, written=None):
         """Forget the cursors a loop / callee may have written (all of them when `written` is None) and re-assume the chain; cursors
         that provably are not written keep their current linear form (frame condition)."""
@@ -263,6 +281,12 @@ class Interp:
             new_heap[f] = v
             vals.append(v)
         self.chain_vals(st["ctx"], vals)
+        if written is not None:
+            # the frame condition covers every field, not only the cursors: a counter the loop / callee provably never writes keeps its value
+            for k_, v_ in heap.items():
+                fld = k_[7:-1] if k_.startswith("veclen(") and k_.endswith(")") else k_
+                if k_ not in new_heap and fld not in written:
+                    new_heap[k_] = v_
         st["heap"] = new_heap
         st["regions"] = {}
 
@@ -944,7 +968,7 @@ class Interp:
                     bb = targets[0][1] if targets else t["otherwise"]     # log statement: the disabled side
                     continue
                 d = self.operand(st, t["discr"])
-                if in_debug_assert(t.get("sp")):
+                if in_debug_assert(t.get("sp")) or self._inside_debug_assert(body, t.get("sp")):
                     # follow the edge on which the assertion holds; its condition is NOT assumed
                     if isinstance(d, tuple) and d[0] == 'bool':
                         nxt = dict(targets).get(d[1], t["otherwise"])
